@@ -635,13 +635,9 @@ class _InternalBaseTracer(_InternalBaseTracerSuper, metaclass=MetaTracerStateMac
                 flags=future_flags_of(f),
                 dont_inherit=True,
             )
-            for const in compiled.co_consts:
-                if (
-                    isinstance(const, types.CodeType)
-                    and const.co_name == f.__code__.co_name
-                ):
-                    f.__code__ = const
-                    break
+            new_code = find_function_code(compiled, f.__code__.co_name)
+            if new_code is not None:
+                f.__code__ = new_code
 
         @functools.wraps(f)
         def instrumented_f(*args, **kwargs):
@@ -1135,6 +1131,26 @@ def parse_function_source(f: Callable) -> ast.Module:
         module = ast.parse(source)
         ast.increment_lineno(module, start - 1)
     return module
+
+
+def find_function_code(code: types.CodeType, name: str) -> Optional[types.CodeType]:
+    """The code object named `name` nearest to the top of `code`, breadth first: that of a function with
+    type parameters (PEP 695) is a constant of the code object evaluating the parameters, not of the module."""
+    level = [code]
+    while len(level) > 0:
+        consts = [
+            const
+            for code_obj in level
+            for const in code_obj.co_consts
+            if isinstance(const, types.CodeType)
+        ]
+        for const in consts:
+            if const.co_name == name:
+                return const
+        level = [
+            const for const in consts if const.co_name.startswith("<generic parameters")
+        ]
+    return None
 
 
 def future_flags_of(f: Callable) -> int:
